@@ -3,12 +3,12 @@ from __future__ import annotations
 
 import json
 
-from . import fam_deep, fam_expr, fam_proof, fam_iter, fam_multi, fam_names, fam_pairs, fam_pool, fam_proc, fam_rand, fam_repo, fam_sql
+from . import fam_idjoin, fam_deep, fam_expr, fam_proof, fam_iter, fam_multi, fam_names, fam_pairs, fam_pool, fam_proc, fam_rand, fam_repo, fam_sql
 from .core import Part, open_findings
 
 REGISTRY = {
     "C06": {"families": [fam_iter.run, fam_sql.run, fam_multi.run, fam_proof.run], "assumptions": ["leaf declarations exact / loose / zero-lower / unbounded, always consistent with the actual row count"]},
-    "C14": {"families": [fam_iter.run, fam_sql.run, fam_multi.run, fam_repo.run], "assumptions": []},
+    "C14": {"families": [fam_iter.run, fam_sql.run, fam_multi.run, fam_repo.run, fam_idjoin.run], "assumptions": []},
     "C16": {"families": [fam_iter.run, fam_sql.run], "assumptions": ["the executor used in the replay really executes the relation in its engine"]},
     "C18": {"families": [fam_iter.run], "assumptions": ["leaf payloads are harness RowIterable subclasses counting __iter__ calls (public extension point)"]},
     "C19": {"families": [fam_names.run], "assumptions": [
@@ -34,7 +34,7 @@ REGISTRY = {
     "C08": {"families": [fam_sql.run, fam_iter.run, fam_rand.run], "assumptions": ["each occurrence of a leaf table in one query gets its own alias (as a user must do for self-joins)"]},
     "C11": {"families": [fam_sql.run, fam_deep.run, fam_rand.run], "assumptions": ["list equality is demanded exactly when TLC's OrdTree says the outermost level carries a sort that totally orders its rows"]},
     "C17": {"families": [fam_sql.run, fam_repo.run], "assumptions": []},
-    "C03": {"families": [fam_multi.run, fam_deep.run, fam_rand.run], "assumptions": [
+    "C03": {"families": [fam_multi.run, fam_deep.run, fam_rand.run, fam_idjoin.run], "assumptions": [
         "content is compared after processing with a real SQLite<->iteration Processor; list equality when TLC's ListDet holds, bag equality when BagDet holds",
         "with transfer=True and a fully successful backtrack the documented behaviour (no transfer added) is accepted"]},
     "C15": {"families": [fam_multi.run], "assumptions": []},
